@@ -7,6 +7,7 @@ import Inkayaku.Model.Generate
 import Inkayaku.Props.C03
 import Inkayaku.Props.C04
 import Inkayaku.Props.C05
+import Inkayaku.Props.C06
 import Inkayaku.Props.C10
 import Inkayaku.Props.C10Fifty
 import Inkayaku.Props.C11
